@@ -306,4 +306,30 @@ example : HitOK palsMatrix exTarget.toList exQuery.toList ⟨⟨0, 2, 16, 18, 16
     ⟨⟨0, 2, 16, 18, 16⟩, -9, 2, 0⟩ (by decide +kernel)
   exact h
 
+/-! ### finding K6 in the model, and non-vacuity of `alignTraps_sound` -/
+
+/-- a 16-letter segment twice in the target (at 0 and at 24), once in the query: two alignments over
+    the same query rows on the diagonals 0 and 24 -/
+def k6Target : Array Nat := exTarget ++ #[116, 116, 116, 116, 103, 103, 103, 103] ++ exTarget
+def k6Query : Array Nat := exTarget
+
+/-- **`k6_in_the_model`** — finding K6 on 40 letters: one trapezoid over all query rows and both
+    diagonals (`q − t ∈ [−26, 2]`).  The recursion of the source (`emittedWith false`, what the
+    correspondence compares with `dp.AlignTraps`) aligns through the middle row once, finds the
+    copy at 24 and has no rows left; the recursion that also splits by diagonals (`emittedWith true`,
+    the candidate repair the K6 recogniser runs) finds the copy at 0 as well.  Both hits are real
+    (`kernel_model_split_hits_under_contract`). -/
+theorem k6_in_the_model :
+    Biogo.PalsKernel.emittedWith false palsCosts ⟨k6Target, k6Query⟩ [⟨16, 0, -26, 2⟩] 4 10 100 1000 =
+      [⟨⟨24, 0, 40, 16, 16⟩, 17, 27, 0⟩] ∧
+    Biogo.PalsKernel.emittedWith true palsCosts ⟨k6Target, k6Query⟩ [⟨16, 0, -26, 2⟩] 4 10 100 1000 =
+      [⟨⟨24, 0, 40, 16, 16⟩, 17, 27, 0⟩, ⟨⟨0, 0, 16, 16, 16⟩, -7, 3, 0⟩] := by
+  constructor <;> decide +kernel
+
+open Biogo.Proofs.PalsKernelSound in
+/-- the hypotheses of `alignTraps_sound` hold on the example of `kernel_model_hits_under_contract`
+    (and on the K6 pair); its conclusion is the statement about `AlignTraps` as a whole -/
+example := alignTraps_sound ⟨exTarget, exQuery⟩ (by decide) (by decide) [⟨20, 0, 1, 3⟩] 4 10 100 1000
+  (by decide) (by intro t ht; simp at ht; subst ht; decide)
+
 end Biogo.Properties.C15_kernel
